@@ -23,6 +23,10 @@ class Ctx:
         self.queries = []    # nested Select objects in creation order
 
     def opt(self):
+        if isinstance(self.mask, tuple):
+            b = self.mask[self.bit] if self.bit < len(self.mask) else False
+            self.bit += 1
+            return b
         b = (self.mask >> self.bit) & 1
         self.bit += 1
         return b == 1
